@@ -49,6 +49,34 @@ Expected(e) ==
       [] e.verb = "union"      -> CmUnion(M, Tab(e.in2))
       [] OTHER -> M
 
+(* Type plane (C12): the static type family of every visible column.  Frame rules: a verb changes the type of no column it does *)
+(* not define; "?" = defined by the verb's expressions, taken from the log (TLC infers what the trace spec does not compute).      *)
+DtOf(M, n) == IF \E i \in DOMAIN M.names : M.names[i] = n THEN M.dts[CHOOSE i \in DOMAIN M.names : M.names[i] = n] ELSE "?"
+Lca(a, b) == IF a = b THEN a ELSE IF {a, b} = {"Int", "Float"} THEN "Float" ELSE IF a = "Null" THEN b ELSE IF b = "Null" THEN a ELSE "?"
+DtsAfter(e, X) ==       \* X: the metadata the model expects after the verb (names), M: before
+    LET M == Tab(e.in) a == e.args IN
+    IF Len(M.dts) # Len(M.names) THEN [i \in DOMAIN X.names |-> "?"]
+    ELSE
+    CASE e.verb \in {"select", "drop", "filter", "arrange", "slice_head", "group_by", "ungroup", "alias", "collect"}
+            -> [i \in DOMAIN X.names |-> DtOf(M, X.names[i])]
+      [] e.verb = "rename" -> M.dts
+      [] e.verb = "mutate" -> [i \in DOMAIN X.names |-> IF \E q \in DOMAIN a.new : a.new[q] = X.names[i] THEN "?" ELSE DtOf(M, X.names[i])]
+      [] e.verb = "summarize" -> [i \in DOMAIN X.names |-> IF \E q \in DOMAIN a.new : a.new[q] = X.names[i] THEN "?" ELSE DtOf(M, X.names[i])]
+      [] e.verb \in {"join", "inner_join", "left_join", "full_join", "cross_join"}
+            -> IF Len(Tab(e.in2).dts) = Len(Tab(e.in2).names) /\ Len(X.names) = Len(M.names) + Len(Tab(e.in2).names)
+               THEN M.dts \o Tab(e.in2).dts ELSE [i \in DOMAIN X.names |-> "?"]
+      [] e.verb = "union" -> IF Len(Tab(e.in2).dts) = Len(Tab(e.in2).names)
+                             THEN [i \in DOMAIN X.names |-> Lca(DtOf(M, X.names[i]), DtOf(Tab(e.in2), X.names[i]))]
+                             ELSE [i \in DOMAIN X.names |-> "?"]
+      [] OTHER -> [i \in DOMAIN X.names |-> "?"]
+(* exported frame against the static types (C12): equal families; "only all-null columns are null-typed" - a Null column is   *)
+(* accepted (the trace does not hold the data); on SQL back ends "up to the numeric family"                                     *)
+ExportAgree(logged, want, backend) ==
+    Len(logged) = Len(want) /\ \A i \in DOMAIN want :
+        \/ want[i] = "?" \/ logged[i] = want[i] \/ logged[i] = "Null"
+        \/ (backend # "polars" /\ {logged[i], want[i]} \subseteq {"Int", "Float"})
+DtsAgree(logged, want) == Len(logged) = Len(want) /\ \A i \in DOMAIN want : want[i] = "?" \/ logged[i] = "?" \/ logged[i] = want[i]
+
 Modelled == {"select", "drop", "rename", "mutate", "filter", "arrange", "slice_head", "group_by", "ungroup", "summarize",
              "alias", "collect", "join", "inner_join", "left_join", "full_join", "cross_join", "union"}
 
@@ -60,18 +88,20 @@ Clause(e, X) ==
     ELSE IF ~e.marker /\ e.sql[1] # X.lim THEN "sql-limit"
     ELSE IF ~e.marker /\ e.sql[3] # X.filt THEN "sql-filtered"
     ELSE IF ~e.marker /\ (e.sql[2] > 0) # (X.ngrp > 0) THEN "sql-grouped"
+    ELSE IF e.names = X.names /\ ~DtsAgree(e.dts, DtsAfter(e, X)) THEN "dtype"
     ELSE ""
 
 Step ==
     /\ verdict = "ok" /\ l >= 1 /\ l <= Len(Traces[tid])
     /\ LET e == Ev IN
        IF e.verb = "source"
-       THEN /\ tabs' = Put(e.out, [CmSource(e.names) EXCEPT !.part = e.part, !.lim = e.sql[1], !.ngrp = e.sql[2], !.filt = e.sql[3]])
+       THEN /\ tabs' = Put(e.out, [dts |-> e.dts] @@ [CmSource(e.names) EXCEPT !.part = e.part, !.lim = e.sql[1], !.ngrp = e.sql[2], !.filt = e.sql[3]])
             /\ verdict' = "ok"
        ELSE IF ~Known(e.in) THEN tabs' = tabs /\ verdict' = "unknown-input"
        ELSE IF e.verb = "export_cols"
             THEN /\ tabs' = tabs
-                 /\ verdict' = IF e.names = Tab(e.in).names THEN "ok" ELSE "export-columns"
+                 /\ verdict' = IF e.names # Tab(e.in).names THEN "export-columns"
+                               ELSE IF e.dts # <<>> /\ ~ExportAgree(e.dts, Tab(e.in).dts, e.backend) THEN "export-dtype" ELSE "ok"
        ELSE IF e.err # "" \/ e.out = 0 \/ e.verb \notin Modelled
             THEN tabs' = tabs /\ verdict' = "ok"          \* error path / observation: the input stays as it is
        ELSE IF e.in2 # 0 /\ ~Known(e.in2) THEN tabs' = tabs /\ verdict' = "unknown-input"
@@ -79,7 +109,7 @@ Step ==
                 c == Clause(e, X)
             IN /\ verdict' = IF c = "" THEN "ok" ELSE c
                \* continue from the LOGGED state so that one divergence does not hide what follows
-               /\ tabs' = Put(e.out, [X EXCEPT !.names = e.names, !.part = e.part])
+               /\ tabs' = Put(e.out, [dts |-> e.dts] @@ [X EXCEPT !.names = e.names, !.part = e.part])
     /\ l' = IF verdict' = "ok" THEN l + 1 ELSE l
     /\ tid' = tid
 
@@ -87,7 +117,9 @@ Finish ==
     /\ (verdict # "ok" \/ l > Len(Traces[tid]))
     /\ l # -1
     /\ PrintT(ToJson([tid |-> tid, verdict |-> verdict, step |-> l, len |-> Len(Traces[tid]),
-                      expected |-> IF verdict \in {"names", "group"} /\ Known(Ev.in) THEN Expected(Ev).names ELSE <<>>]))
+                      expected |-> IF verdict \in {"names", "group"} /\ Known(Ev.in) THEN Expected(Ev).names
+                                   ELSE IF verdict = "dtype" /\ Known(Ev.in) THEN DtsAfter(Ev, Expected(Ev))
+                                   ELSE IF verdict = "export-dtype" /\ Known(Ev.in) THEN Tab(Ev.in).dts ELSE <<>>]))
     /\ l' = -1 /\ UNCHANGED <<tid, tabs, verdict>>
 
 Next == Step \/ Finish
